@@ -1,0 +1,69 @@
+//go:build verif
+
+// Contracts for the deductive verifier in /verif (govc). Comment-only: this file declares nothing and is
+// compiled only under the build tag `verif`. Syntax: see /verif/DESIGN.md §2.5.
+
+package local
+
+//@ file state.go
+
+// outcome classes of the single catalog RPC a sync step makes (lastRPCErr() is the error that RPC returned)
+//@ pure rpcRefusedByACL() bool = acl.IsErrPermissionDenied(lastRPCErr()) || acl.IsErrNotFound(lastRPCErr())
+
+//@ func State.pruneCheck
+//@ props C16
+//@ requires l != nil
+//@ ensures[removed] !has(l.checks, id)
+//@ ensures[others-kept] forall k structs.CheckID :: k != id ==> (has(l.checks, k) <==> old(has(l.checks, k))) && l.checks[k] == old(l.checks[k])
+//@ modifies l.checks
+
+//@ func State.deleteService
+//@ props C16
+//@ results err
+//@ requires l != nil && l.tokens != nil
+//@ requires[entries-non-nil] (forall k structs.ServiceID :: has(l.services, k) ==> l.services[k] != nil) && (forall k structs.CheckID :: has(l.checks, k) ==> l.checks[k] != nil)
+//@ requires[present] has(l.services, key)
+//@ ensures[confirmed-removal-forgets] key.ID != "" && (lastRPCErr() == nil || strings.Contains(lastRPCErr().Error(), "Unknown service")) ==> err == nil && !has(l.services, key)
+//@ ensures[acl-refusal-keeps-entry-marks-in-sync] key.ID != "" && !(lastRPCErr() == nil || strings.Contains(lastRPCErr().Error(), "Unknown service")) && rpcRefusedByACL() ==> err == nil && has(l.services, key) && l.services[key].InSync
+//@ ensures[failure-forgets-nothing] key.ID != "" && !(lastRPCErr() == nil || strings.Contains(lastRPCErr().Error(), "Unknown service")) && !rpcRefusedByACL() ==> err != nil && has(l.services, key) && l.services[key].InSync == old(l.services[key].InSync) && l.services[key].Deleted == old(l.services[key].Deleted)
+//@ ensures[other-services-kept] forall k structs.ServiceID :: k != key ==> (has(l.services, k) <==> old(has(l.services, k))) && l.services[k] == old(l.services[k])
+
+//@ func State.deleteCheck
+//@ props C16
+//@ results err
+//@ requires l != nil && l.tokens != nil
+//@ requires[entries-non-nil] forall k structs.CheckID :: has(l.checks, k) ==> l.checks[k] != nil
+//@ requires[present] has(l.checks, key)
+//@ ensures[confirmed-removal-forgets] key.ID != "" && (lastRPCErr() == nil || strings.Contains(lastRPCErr().Error(), "Unknown check")) ==> err == nil && !has(l.checks, key)
+//@ ensures[acl-refusal-keeps-entry-marks-in-sync] key.ID != "" && !(lastRPCErr() == nil || strings.Contains(lastRPCErr().Error(), "Unknown check")) && rpcRefusedByACL() ==> err == nil && has(l.checks, key) && l.checks[key].InSync
+//@ ensures[failure-forgets-nothing] key.ID != "" && !(lastRPCErr() == nil || strings.Contains(lastRPCErr().Error(), "Unknown check")) && !rpcRefusedByACL() ==> err != nil && has(l.checks, key) && l.checks[key].InSync == old(l.checks[key].InSync) && l.checks[key].Deleted == old(l.checks[key].Deleted)
+//@ ensures[other-checks-kept] forall k structs.CheckID :: k != key ==> (has(l.checks, k) <==> old(has(l.checks, k))) && l.checks[k] == old(l.checks[k])
+
+//@ func State.syncCheck
+//@ props C16
+//@ results err
+//@ requires l != nil && l.tokens != nil
+//@ requires[entries-non-nil] (forall k structs.ServiceID :: has(l.services, k) ==> l.services[k] != nil) && (forall k structs.CheckID :: has(l.checks, k) ==> l.checks[k] != nil)
+//@ requires[present] has(l.checks, key) && l.checks[key].Check != nil
+//@ ensures[success-marks-in-sync] lastRPCErr() == nil ==> err == nil && l.checks[key].InSync && l.nodeInfoInSync
+//@ ensures[acl-refusal-marks-in-sync] lastRPCErr() != nil && rpcRefusedByACL() ==> err == nil && l.checks[key].InSync && l.nodeInfoInSync == old(l.nodeInfoInSync)
+//@ ensures[failure-marks-nothing] lastRPCErr() != nil && !rpcRefusedByACL() ==> err != nil && l.checks[key].InSync == old(l.checks[key].InSync) && l.nodeInfoInSync == old(l.nodeInfoInSync)
+//@ ensures[entries-kept] (forall k structs.CheckID :: (has(l.checks, k) <==> old(has(l.checks, k))) && l.checks[k] == old(l.checks[k])) && (forall k structs.ServiceID :: (has(l.services, k) <==> old(has(l.services, k))) && l.services[k] == old(l.services[k]))
+
+//@ func State.syncService
+//@ props C16
+//@ results err
+//@ requires l != nil && l.tokens != nil
+//@ requires[entries-non-nil] (forall k structs.ServiceID :: has(l.services, k) ==> l.services[k] != nil) && (forall k structs.CheckID :: has(l.checks, k) ==> l.checks[k] != nil && l.checks[k].Check != nil)
+//@ requires[present] has(l.services, key)
+//@ ensures[success-marks-in-sync] lastRPCErr() == nil ==> err == nil && l.services[key].InSync && l.nodeInfoInSync
+//@ ensures[acl-refusal-marks-in-sync] lastRPCErr() != nil && rpcRefusedByACL() ==> err == nil && l.services[key].InSync && l.nodeInfoInSync == old(l.nodeInfoInSync)
+//@ ensures[failure-marks-nothing] lastRPCErr() != nil && !rpcRefusedByACL() ==> err != nil && l.services[key].InSync == old(l.services[key].InSync) && l.nodeInfoInSync == old(l.nodeInfoInSync) && (forall k structs.CheckID :: has(l.checks, k) ==> l.checks[k].InSync == old(l.checks[k].InSync))
+//@ ensures[entries-kept] (forall k structs.CheckID :: (has(l.checks, k) <==> old(has(l.checks, k))) && l.checks[k] == old(l.checks[k])) && (forall k structs.ServiceID :: (has(l.services, k) <==> old(has(l.services, k))) && l.services[k] == old(l.services[k]))
+
+//@ func State.syncNodeInfo
+//@ props C16
+//@ results err
+//@ requires l != nil && l.tokens != nil
+//@ ensures[success-marks-in-sync] lastRPCErr() == nil ==> err == nil && l.nodeInfoInSync
+//@ ensures[failure-marks-nothing] lastRPCErr() != nil && !rpcRefusedByACL() ==> err != nil && l.nodeInfoInSync == old(l.nodeInfoInSync)
